@@ -763,6 +763,10 @@ else:
     if TYPE_CHECKING:
         from multiprocessing import Queue
 
+    class AbortQueue(Exception):
+        """Sentinel that tells the writer process to stop without finalising
+        the cache because the main process failed."""
+
     class ChunkProcessingTask:
         """Defines the worker task which splits catalog data into paches and
         puts the data into the writer process queue."""
@@ -802,18 +806,27 @@ else:
             self.start()
             return self
 
-        def __exit__(self, *args, **kwargs) -> None:
+        def __exit__(self, exc_type, *args, **kwargs) -> None:
+            # always release the writer, otherwise joining it blocks forever
+            self.patch_queue.put(EndOfQueue if exc_type is None else AbortQueue)
             self.join()
+            if exc_type is None and self.process.exitcode != 0:
+                raise RuntimeError("writer process failed, catalog cache is incomplete")
 
         def task(self) -> None:
-            with CatalogWriter(
-                self.cache_directory,
-                overwrite=self.overwrite,
-                chunk_info=self.chunk_info,
-                buffersize=self.buffersize,
-            ) as writer:
-                while (patches := self.patch_queue.get()) is not EndOfQueue:
-                    writer.process_patches(patches)
+            try:
+                with CatalogWriter(
+                    self.cache_directory,
+                    overwrite=self.overwrite,
+                    chunk_info=self.chunk_info,
+                    buffersize=self.buffersize,
+                ) as writer:
+                    while (patches := self.patch_queue.get()) is not EndOfQueue:
+                        if patches is AbortQueue:
+                            raise AbortQueue
+                        writer.process_patches(patches)
+            except AbortQueue:
+                pass  # the error is reported by the main process
 
         def start(self) -> None:
             self.process.start()
@@ -901,8 +914,6 @@ else:
                 chunk_iter = Indicator(reader) if progress else iter(reader)
                 for chunk in chunk_iter:
                     pool.map(chunk_processing_task, np.array_split(chunk, max_workers))
-
-                patch_queue.put(EndOfQueue)
 
 
 class Catalog(Mapping[int, Patch]):
